@@ -150,6 +150,8 @@ class MediaList(cssutils.util._NewListBase):
                 if item.type == 'MediaQuery':
                     mediaType = item.value.mediaType
                     if mediaType:
+                        # media types are case-insensitive
+                        mediaType = normalize(mediaType)
                         if mediaType == 'all':
                             # remove anthing else and keep all+comments(!) only
                             finalseq = commentseqonly
